@@ -118,6 +118,11 @@ def needle_check(v, tabs, rng, pid):
     return n
 
 
+def session_worker(scalls):
+    """several generator calls one after the other in this one process"""
+    return [gl.call_gen(c_) for c_ in scalls]
+
+
 def tset(lst):
     return set(tuple(x) for x in lst)
 
@@ -208,6 +213,41 @@ def run(tier, seed):
         desc["got_rows"] = len(rows)
         v.violation("genhkl_all(Sg%d %s, recip metric %s, %d<Q<=%d, xfab.%s, %s): %s" %
                     (t["no"], t["setting"], I["met"], I["Kmin"], I["K"], mod, sorted(kw), text), desc)
+    # sessions: all groups that carry the same Laue label (on whatever axes: P3, P31, P-3 on hexagonal axes, R3 and R-3 on rhombohedral
+    # ones ...) are asked one after the other in ONE process, in table order and in reverse; each answer must be the set the same call
+    # gave in the main run (whatever is remembered per Laue class, per lattice type or per number of operations must not leak)
+    by_label = collections.OrderedDict()
+    first_call = {}
+    for idx, (m_, res_) in enumerate(zip(meta, results)):
+        i_, mod_ = m_[0], m_[1]
+        if "sgno" in m_[2] and (i_, mod_) not in first_call and not isinstance(res_, str) and not inst[i_ - 1].get("huge"):
+            first_call[(i_, mod_)] = idx
+    seen_tab = set()
+    for (i_, mod_), idx in first_call.items():
+        t_ = tabs[inst[i_ - 1]["t"] - 1]
+        if (t_["no"], t_["setting"], mod_) in seen_tab:
+            continue
+        seen_tab.add((t_["no"], t_["setting"], mod_))
+        by_label.setdefault((t_["Laue"], mod_), []).append(idx)
+    sessions = []
+    for (lab, mod_), idxs in by_label.items():
+        if len(idxs) > 1:
+            sessions.append([calls[j] for j in idxs] + [calls[j] for j in reversed(idxs)])
+            sessions[-1] = (sessions[-1], idxs + list(reversed(idxs)))
+    sres = common.pmap(session_worker, [s_[0] for s_ in sessions], chunk=1)
+    nsess = 0
+    for (scalls, idxs), outs in zip(sessions, sres):
+        for j, o in zip(idxs, outs):
+            nsess += 1
+            a_, b_ = gl.rows_to_int(results[j]), (gl.rows_to_int(o) if not isinstance(o, str) else None)
+            if b_ is None or collections.Counter(a_) != collections.Counter(b_):
+                i_ = meta[j][0]
+                t_ = tabs[inst[i_ - 1]["t"] - 1]
+                v.violation("genhkl_all(Sg%d %s, xfab.%s) returns a different set of reflections when it is asked after other groups of Laue class %s in the "
+                            "same process (%s rows) than on its own (%d rows)" % (t_["no"], t_["setting"], meta[j][1], t_["Laue"],
+                                                                                  "an exception" if b_ is None else len(b_), len(a_)),
+                            {"sg": [t_["no"], t_["setting"]], "module": meta[j][1], "laue": t_["Laue"]})
+                break
     # conformance of SysAbs.tla with the real evaluators (evidence; a drift is reported, not a verdict)
     drift, ncalls = sysabs_conformance(tabs, inst, by)
     if drift:
